@@ -32,6 +32,8 @@ type Frame struct {
 	rdIdx   int
 	results Value
 	final   bool // results set; frame returns after remaining defers
+	id      int64
+	barrier bool // summarisation boundary: returning from this frame ends the sub-exploration
 }
 
 func (f *Frame) clone() *Frame {
@@ -88,6 +90,12 @@ type State struct {
 	loopCount map[*ssa.BasicBlock]int
 	sched     []string
 	lockset   []string
+	pendingDocAssign []docAssign
+	sumDone   bool
+	stops     []stopPoint
+	arrived   int
+	pcChecked *PC
+	sumRes    Value
 	wantYield string
 	done      bool
 	// access log for lockset analysis (C16)
@@ -179,6 +187,10 @@ type Stats struct {
 	Discharged  int64
 	UnknownObl  int64
 	Forks       int64
+	Summaries   int64
+	Merges      int64
+	MergedStates int64
+	SummaryPaths int64
 }
 
 type Finding struct {
@@ -237,6 +249,10 @@ type Engine struct {
 	inInit     bool
 	deadline   time.Duration
 	sentinels  map[string]IfaceV
+	pathHist   map[string]int
+	forkHist   map[string]int
+	summarise  map[string]bool
+	merging    bool
 }
 
 type Access2 struct{ A, B Access }
